@@ -164,8 +164,6 @@ structure PaxOut where
   xattr : List Xattr := []         -- most recent first, as the C list
   offset : Nat := 0                -- local `offset`
   sparseOpen : Bool := false       -- `sparse_last != NULL`
-  /-- 1.2.0 only: `sparse_last` points into a list that `pax_sparse_map` has freed -/
-  stale : Bool := false
   deriving Repr
 
 def PAX_SIZE := 0x001
@@ -210,12 +208,13 @@ def sparseMapLoop (buf : Bytes) : Nat → Nat → List SparseEnt → R (List Spa
               else .ok acc'.reverse
 
 /--
-Apply one framed record to the decoded header.  `fixed = true` is the code after
-fixes/C07-pax-sparse-uaf.patch (`GNU.sparse.map` resets `sparse_last`); with `fixed = false`
-(1.2.0) a `GNU.sparse.numbytes` record that follows `numbytes … map` stores through the
-dangling `sparse_last` — a heap use-after-free, reported as `.oob`.
+Apply one framed record to the decoded header (`find_handler` / `apply_handler` and the two inline
+sparse keys).  `GNU.sparse.map` resets `sparse_last` (pax_header.c: `if (field->type ==
+PAX_TYPE_CONST_STRING) sparse_last = NULL;`, /repo 56b164f).  The 1.2.0 code did not: a
+`GNU.sparse.numbytes` record after `numbytes … map` stored through the freed list — that variant
+lives only in `Sqfs/Witness/C07.lean` (`paxApplyOld`).
 -/
-def paxApply (fixed : Bool) (buf : Bytes) (r : PaxRec) (o : PaxOut) : R PaxOut :=
+def paxApply (buf : Bytes) (r : PaxRec) (o : PaxOut) : R PaxOut :=
   match cstr buf (buf.length + 1) r.key with
   | .oob => .oob | .spin => .spin | .fail c => .fail c
   | .ok key =>
@@ -251,9 +250,7 @@ def paxApply (fixed : Bool) (buf : Bytes) (r : PaxRec) (o : PaxOut) : R PaxOut :
       | .fail _ => .fail 3 | .oob => .oob | .spin => .spin
     else if key = ([71, 78, 85, 46, 115, 112, 97, 114, 115, 101, 46, 109, 97, 112] : Bytes) /- "GNU.sparse.map" -/ then
       match sparseMapLoop buf (buf.length + 1) r.value [] with
-      | .ok l =>
-        if fixed then .ok { o with sparse := l, sparseOpen := false }
-        else .ok { o with sparse := l, stale := o.sparseOpen }
+      | .ok l => .ok { o with sparse := l, sparseOpen := false }
       | .fail c => .fail c | .oob => .oob | .spin => .spin
     else if key = ([71, 78, 85, 46, 115, 112, 97, 114, 115, 101, 46, 111, 102, 102, 115, 101, 116] : Bytes) /- "GNU.sparse.offset" -/ then
       match parseU 10 buf r.value none true 0 0 with
@@ -264,26 +261,25 @@ def paxApply (fixed : Bool) (buf : Bytes) (r : PaxRec) (o : PaxOut) : R PaxOut :
       | .ok (v, _) =>
         let e : SparseEnt := { offset := o.offset, count := v }
         -- first entry replaces `out->sparse`, later ones are appended behind `sparse_last`
-        if o.stale then .oob else
         .ok (if o.sparseOpen then { o with sparse := o.sparse ++ [e] } else { o with sparse := [e], sparseOpen := true })
       | .fail _ => .fail 1 | .oob => .oob | .spin => .spin
     else .ok o
 
 /-- `read_pax_header` after `record_to_memory`: `buf` = the `entsize` record bytes followed by one NUL -/
-def paxLoop (fixed : Bool) (endIdx : Nat) : Nat → Bytes → Nat → PaxOut → R PaxOut
+def paxLoop (endIdx : Nat) : Nat → Bytes → Nat → PaxOut → R PaxOut
   | 0, _, _, _ => .spin
   | fuel + 1, buf, line, o =>
     if line ≥ endIdx then .ok o
     else match paxFrame buf endIdx line with
       | .oob => .oob | .spin => .spin | .fail c => .fail c
       | .frame buf' r next =>
-        match paxApply fixed buf' r o with
-        | .ok o' => paxLoop fixed endIdx fuel buf' next o'
+        match paxApply buf' r o with
+        | .ok o' => paxLoop endIdx fuel buf' next o'
         | e => e
 
 /-- every record is at least one byte long, so `entsize + 1` iterations always suffice -/
-def readPaxHeader (fixed : Bool) (record : Bytes) : R PaxOut :=
-  paxLoop fixed record.length (record.length + 1) (record ++ [0]) 0 {}
+def readPaxHeader (record : Bytes) : R PaxOut :=
+  paxLoop record.length (record.length + 1) (record ++ [0]) 0 {}
 
 /-! ## GNU 1.0 sparse map (`read_sparse_map_new.c`) -/
 
@@ -376,45 +372,45 @@ def readGnuNewSparse (stream : Bytes) (recordSize : Nat) : R (List SparseEnt × 
 /-! ## old GNU sparse map (`read_sparse_map_old.c`) -/
 
 /-- `parse(in, count, …)` with `in = buf + i`: entries of 24 bytes; `(stopped, entries)`, `stopped` = returned 1 -/
-def oldParse (fixed : Bool) (buf : Bytes) : Nat → Nat → List SparseEnt → R (Bool × List SparseEnt)
+def oldParse (buf : Bytes) : Nat → Nat → List SparseEnt → R (Bool × List SparseEnt)
   | 0, _, acc => .ok (false, acc)
   | cnt + 1, i, acc =>
     match buf[i]?, buf[i + 12]? with
     | some a, some b =>
       if !isDigit a || !isDigit b then .ok (true, acc)
-      else match readNumber fixed buf i 12 with
+      else match readNumber buf i 12 with
         | .oob => .oob | .spin => .spin | .fail c => .fail c
         | .ok off =>
-          match readNumber fixed buf (i + 12) 12 with
+          match readNumber buf (i + 12) 12 with
           | .oob => .oob | .spin => .spin | .fail c => .fail c
-          | .ok sz => oldParse fixed buf cnt (i + 24) (acc ++ [{ offset := off, count := sz }])
+          | .ok sz => oldParse buf cnt (i + 24) (acc ++ [{ offset := off, count := sz }])
     | _, _ => .oob
 
 /-- the `do … while` over extension records of 512 bytes (21 entries, `isextended` at offset 504) -/
-def oldExt (fixed : Bool) : Nat → Bytes → List SparseEnt → R (List SparseEnt × Bytes)
+def oldExt : Nat → Bytes → List SparseEnt → R (List SparseEnt × Bytes)
   | 0, _, _ => .spin
   | fuel + 1, stream, acc =>
     if stream.length < 512 then .fail 2                                  -- unexpected end-of-file
     else
       let blk := stream.take 512
-      match oldParse fixed blk 21 0 acc with
+      match oldParse blk 21 0 acc with
       | .oob => .oob | .spin => .spin | .fail c => .fail c
       | .ok (stopped, acc') =>
         match blk[504]? with
         | none => .oob
         | some ext =>
-          if !stopped && ext.toNat ≠ 0 then oldExt fixed fuel (stream.drop 512) acc'
+          if !stopped && ext.toNat ≠ 0 then oldExt fuel (stream.drop 512) acc'
           else .ok (acc', stream.drop 512)
 
 /-- `read_gnu_old_sparse(fp, hdr)`: `hdr` = the 512 header bytes (4 entries at 386, `isextended` at 482) -/
-def readGnuOldSparse (fixed : Bool) (hdr stream : Bytes) : R (List SparseEnt × Bytes) :=
-  match oldParse fixed hdr 4 386 [] with
+def readGnuOldSparse (hdr stream : Bytes) : R (List SparseEnt × Bytes) :=
+  match oldParse hdr 4 386 [] with
   | .oob => .oob | .spin => .spin | .fail c => .fail c
   | .ok (stopped, acc) =>
     match hdr[482]? with
     | none => .oob
     | some ext =>
       if stopped || ext.toNat = 0 then .ok (acc, stream)
-      else oldExt fixed (stream.length / 512 + 1) stream acc
+      else oldExt (stream.length / 512 + 1) stream acc
 
 end Sqfs.ParseTotal
